@@ -92,16 +92,41 @@ fn balance_to_scalar_total() {
     let _ = Balance(b).to_scalar();
 }
 
-/// C15: no decoded balance is above 2^63-1 (real serde derive + real bincode reader).
-#[cfg(feature = "bincode")]
-#[kani::proof]
-#[kani::unwind(10)]
-fn balance_decode_invariant() {
-    let bytes: [u8; 8] = kani::any();
-    if let Ok(b) = bincode::deserialize::<CustomerBalance>(&bytes) {
-        assert!(b.into_inner() <= MAX);
+/// C15: no decoded balance is above 2^63-1.  The REAL derived Deserialize impls of CustomerBalance /
+/// MerchantBalance / Balance are driven by a minimal deserializer that hands them an arbitrary u64
+/// (what every binary format does with the 8 bytes of the wire form); the error type ignores messages
+/// so that no string formatting is in the path.
+mod u64de {
+    use ::serde::de::{self, Deserializer, Visitor};
+    use ::serde::forward_to_deserialize_any;
+    #[derive(Debug)]
+    pub struct HErr;
+    impl std::fmt::Display for HErr {
+        fn fmt(&self, _f: &mut std::fmt::Formatter<'_>) -> std::fmt::Result { Ok(()) }
     }
-    if let Ok(b) = bincode::deserialize::<MerchantBalance>(&bytes) {
-        assert!(b.into_inner() <= MAX);
+    impl std::error::Error for HErr {}
+    impl de::Error for HErr {
+        fn custom<T: std::fmt::Display>(_msg: T) -> Self { HErr }
+    }
+    pub struct U64De(pub u64);
+    impl<'de> Deserializer<'de> for U64De {
+        type Error = HErr;
+        fn deserialize_any<V: Visitor<'de>>(self, v: V) -> Result<V::Value, HErr> { v.visit_u64(self.0) }
+        fn deserialize_newtype_struct<V: Visitor<'de>>(self, _n: &'static str, v: V) -> Result<V::Value, HErr> { v.visit_newtype_struct(self) }
+        forward_to_deserialize_any! { bool i8 i16 i32 i64 i128 u8 u16 u32 u64 u128 f32 f64 char str string bytes byte_buf option unit unit_struct seq tuple tuple_struct map struct enum identifier ignored_any }
+    }
+}
+
+#[kani::proof]
+fn balance_decode_invariant() {
+    use ::serde::Deserialize;
+    let v: u64 = kani::any();
+    match CustomerBalance::deserialize(u64de::U64De(v)) {
+        Ok(b) => assert!(v <= MAX && b.into_inner() == v),
+        Err(_) => assert!(v > MAX),
+    }
+    match MerchantBalance::deserialize(u64de::U64De(v)) {
+        Ok(b) => assert!(v <= MAX && b.into_inner() == v),
+        Err(_) => assert!(v > MAX),
     }
 }
